@@ -120,6 +120,13 @@ func layout(defs []gen.Def, kind layoutKind, r *proto.Rng) (map[string]string, [
 		lines := []int{1, 1}
 		for i, d := range defs {
 			f := i % 2
+			if layoutEscapeOnly >= 0 {
+				// directed: the definition holding the fault is ALONE in the second file
+				f = 0
+				if i == layoutEscapeOnly {
+					f = 1
+				}
+			}
 			if lines[f] > 1 {
 				bufs[f].WriteString("\n")
 				lines[f]++
